@@ -294,3 +294,63 @@ V('C09-db-mutated-by-walker', 'C09', 'pylatexenc/latexwalker/_walker.py',
   "                latex_context.set_unknown_macro_spec(None)\n                latex_context.freeze() # prevent future changes to the latex context db\n", 'R09d')
 V('C09-benign-local', 'C09', SA,
   "        arg_parser = self._arg_parser\n", "        arg_parser = self._arg_parser  # cached\n", 'SILENT')
+
+
+# ----------------------------------------------------------------------- C20
+UT = 'pylatexenc/_util.py'
+WK = 'pylatexenc/latexwalker/_walker.py'
+V('C20-col-from-next-line', 'C20', UT,
+  "        col_no = pos - self._pos_new_lines[line_no]",
+  "        col_no = pos - self._pos_new_lines[line_no - 1]", 'R20c')
+V('C20-offsets-swapped', 'C20', UT,
+  """            col_no += self.first_line_column_offset
+        else:
+            col_no += self.column_offset""",
+  """            col_no += self.column_offset
+        else:
+            col_no += self.first_line_column_offset""", 'R20c')
+V('C20-walker-forwards-wrong-offset', 'C20', WK,
+  "                column_offset=self.column_offset,\n",
+  "                column_offset=self.first_line_column_offset,\n", 'R20b')
+V('C20-error-annotated-from-token', 'C20', WK,
+  "                    e.lineno, e.colno = self.latex_walker.pos_to_lineno_colno(epos)",
+  "                    e.lineno, e.colno = self.latex_walker.pos_to_lineno_colno(tok.pos if self.open_context and self.open_context[1] is not None else epos)", 'R20a')
+V('C20-tuple-swapped', 'C20', UT,
+  "        return (line_no, col_no)", "        return (col_no, line_no)", 'R20c')
+V('C20-benign', 'C20', UT,
+  "        # find line number in list\n", "        # find the line number in the list\n", 'SILENT')
+
+
+# ----------------------------------------------------------------------- C12
+L2TD = 'pylatexenc/latex2text/_defaultspecs.py'
+V('C12-revert-D8', 'C12', L2TD,
+  "        EnvironmentTextSpec('flalign', simplify_repl=fmt_equation_environment),\n", "", 'R12b2',
+  'D8: walker math environment without latex2text routing')
+V('C12-comment-leak', 'C12', L2T,
+  """            if self.strict_latex_spaces['after-comment']:
+                return ""
+            else:""",
+  """            if self.strict_latex_spaces['after-comment']:
+                return ""
+            elif node.comment.startswith('!'):
+                return node.comment
+            else:""", 'R12a')
+V('C12-comment-dropped-when-kept', 'C12', L2T,
+  "                return '%' + node.comment + nl\n",
+  "                return nl\n", 'R12a')
+V('C12-remove-returns-space', 'C12', L2T,
+  """        elif self.math_mode == 'remove':
+            return ''""",
+  """        elif self.math_mode == 'remove':
+            return self.nodelist_to_text([])  or node.latex_verbatim()[:0] or ' '""", 'R12b')
+V('C12-delims-dropped-inline', 'C12', L2T,
+  "                return delims[0] + content + delims[1]\n",
+  "                return content\n", 'R12b')
+V('C12-discard-after-render', 'C12', L2T,
+  """        if envdef.discard:
+            return ""
+
+        return self.nodelist_to_text(node.nodelist)""",
+  """        return self.nodelist_to_text(node.nodelist)""", 'R12c')
+V('C12-benign', 'C12', L2T,
+  "        # get environment behavior definition.\n", "        # get the environment behavior definition.\n", 'SILENT')
